@@ -529,6 +529,78 @@ out:
     free(msg);
 }
 
+/* ------------------------------------------------------------------ section stderrdef -------------------- */
+/* the no-alloc logger left at its defaults (neither .file nor .filename): it writes to stderr, which it does not own.  File
+ * descriptor 2 is pointed at an in-memory file for the duration of the item; two loggers live one after the other, each logs a
+ * line, is cleaned up; both lines must have reached the file and stderr must still be open afterwards (added after a seeded
+ * change whose clean-up closed a stream the logger had not opened: the first life is flawless, the second one's lines vanish) */
+#include <fcntl.h>
+#include <sys/mman.h>
+static uint64_t stderrdef_total(void) { return 7 * 3; }
+static void stderrdef_eval(uint64_t index, void *ctx) {
+    (void)ctx;
+    BEE_ITEM(index);
+    uint64_t i = index;
+    int level = (int)bee_digit(&i, 7);
+    static const size_t lens[3] = {0, 40, 300};
+    size_t msglen = lens[bee_digit(&i, 3)];
+    V_COUNT("evaluations", 1);
+    V_COUNT("nontrivial", 1);
+    fflush(stderr);
+    int saved = dup(2), mfd = memfd_create("c14-stderr", 0);
+    if (saved < 0 || mfd < 0 || dup2(mfd, 2) < 0) {
+        fprintf(stdout, "C14: cannot redirect stderr\n");
+        _exit(2);
+    }
+    uint8_t *msg = make_msg(msglen);
+    char what[2][160];
+    int rcs[2] = {-1, -1}, inits[2] = {-1, -1};
+    double t_lo = now_s();
+    for (int life = 0; life < 2; ++life) {
+        struct aws_logger lg;
+        struct aws_logger_standard_options lo = {.level = AWS_LL_TRACE, .filename = NULL, .file = NULL};
+        snprintf(what[life], sizeof(what[life]), "default no-alloc logger (stderr), life %d: log(level=%s, message of %zu bytes)", life + 1, r_level_name[level], msglen);
+        inits[life] = aws_logger_init_noalloc(&lg, aws_default_allocator(), &lo);
+        if (inits[life] != AWS_OP_SUCCESS) break;
+        rcs[life] = lg.vtable->log(&lg, (enum aws_log_level)level, subj_id[1], "%s", (const char *)msg);
+        aws_logger_clean_up(&lg);
+    }
+    double t_hi = now_s();
+    int still_open = fcntl(2, F_GETFD) != -1 && !ferror(stderr) && fileno(stderr) == 2;
+    fflush(stderr);
+    /* put the real stderr back before anything is reported */
+    off_t sz = lseek(mfd, 0, SEEK_END);
+    uint8_t *got = (uint8_t *)malloc((size_t)sz + 1);
+    ssize_t rd = pread(mfd, got, (size_t)sz, 0);
+    dup2(saved, 2);
+    close(saved);
+    close(mfd);
+    clearerr(stderr);
+    if (inits[0] || inits[1] || rcs[0] || rcs[1]) {
+        bee_fail("log-failed", "default no-alloc logger writing to stderr: init %d / %d, log %d / %d (error %d) - the second logger's life starts after the first one's clean-up", inits[0], inits[1],
+                 rcs[0], rcs[1], aws_last_error());
+    } else if (!still_open) {
+        bee_fail("stderr-closed", "after two lives of the default no-alloc logger stderr is closed or in an error state: the logger does not own that stream");
+    } else if (rd != sz) {
+        bee_fail("harness", "short read from the stderr capture");
+    } else {
+        /* two lines */
+        size_t n1 = 0;
+        while (n1 < (size_t)sz && got[n1] != '\n') ++n1;
+        if (n1 < (size_t)sz) ++n1;
+        struct lres r;
+        for (int life = 0; life < 2; ++life) {
+            struct lx e = {.level = level, .subject = subj_name[1], .msg = msg, .msglen = msglen, .df = 1, .cap = noalloc_cap(), .what = what[life]};
+            e.t_lo = t_lo;
+            e.t_hi = t_hi;
+            if (life == 0) check_line(got, n1, &e, &r);
+            else check_line(got + n1, (size_t)sz - n1, &e, &r);
+        }
+    }
+    free(got);
+    free(msg);
+}
+
 /* ------------------------------------------------------------------ loggers under the macros ------------- */
 /* The process-wide logger is set ONCE per process (aws_logger_set: "Must only be called once") to this object,
  * which every item re-initialises in place; between items it is a harness-owned silent logger. */
@@ -925,6 +997,7 @@ int main(int argc, char **argv) {
     bee_register("shapes", shapes_total, shapes_eval, 20);
     bee_register("deffmt", deffmt_total, deffmt_eval, 20);
     bee_register("noalloc", noalloc_total, noalloc_eval, 20);
+    bee_register("stderrdef", stderrdef_total, stderrdef_eval, 20);
     bee_register("gate", gate_total, gate_eval, 20);
     bee_register("fmtline", fmtline_total, fmtline_eval, 20);
     bee_register("sinkfail", sinkfail_total, sinkfail_eval, 20);
